@@ -139,10 +139,23 @@ func vfRunChild(role string, args any, timeout time.Duration, extraEnv ...string
 		}
 	}
 	if lb, rerr := os.ReadFile(base + ".log"); rerr == nil {
-		if len(lb) > 6000 {
-			lb = lb[len(lb)-6000:]
+		// keep the part that matters: from the first panic / fatal error line on
+		txt := string(lb)
+		first := -1
+		for _, mark := range []string{"\npanic: ", "\nfatal error: ", "\nunexpected fault address", "\nSIGSEGV", "\nruntime: out of memory", "\nSIGQUIT"} {
+			if k := strings.Index("\n"+txt, mark); k >= 0 && (first < 0 || k < first) {
+				first = k
+			}
 		}
-		res.Output = string(lb)
+		if first >= 0 {
+			txt = txt[first:]
+			if len(txt) > 6000 {
+				txt = txt[:6000]
+			}
+		} else if len(txt) > 6000 {
+			txt = txt[len(txt)-6000:]
+		}
+		res.Output = txt
 	}
 	if err == nil {
 		os.Remove(base + ".log")
